@@ -417,6 +417,10 @@ func AtomUnits() []*Unit {
 		b, base := extUnit("p2extrep", "ext-repeated", "extension-repeated")
 		h := b.Msg("Holder")
 		h.Ext("x_ints", 100, Int32, Repeated, "", base.Full()).Ext("x_strs", 101, String, Repeated, "", base.Full())
+		h.Ext("x_blobs", 102, Bytes, Repeated, "", base.Full()).Ext("x_fix", 103, Sfixed64, Repeated, "", base.Full())
+		col := addColorEnum(b)
+		ch := addChild(b)
+		h.Ext("x_colors", 104, Enum, Repeated, col.Full(), base.Full()).Ext("x_children", 105, Message, Repeated, ch.Full(), base.Full())
 		us = append(us, b.Unit())
 	}
 	{
